@@ -174,6 +174,8 @@ pub struct PassKernel {
     per_name: RefCell<BTreeMap<usize, u32>>,
     /// descriptors handed to the operation by the caller (closing them is legitimate)
     pub given: RefCell<Vec<i32>>,
+    /// caller-given descriptors the operation has closed
+    pub given_closed: RefCell<Vec<i32>>,
     pub harness_pid: i32,
     /// record mmap/munmap of non-anonymous mappings (io_uring rings): (addr, len, released)
     pub maps: RefCell<Vec<(usize, usize, u32)>>,
@@ -203,6 +205,7 @@ impl PassKernel {
             issues: RefCell::new(Vec::new()),
             per_name: RefCell::new(BTreeMap::new()),
             given: RefCell::new(Vec::new()),
+            given_closed: RefCell::new(Vec::new()),
             harness_pid: unsafe { libc::getpid() },
             maps: RefCell::new(Vec::new()),
             extra: RefCell::new(None),
@@ -289,7 +292,19 @@ impl PassKernel {
                         });
                     }
                     None => {
-                        if !self.given.borrow().contains(&fd) {
+                        // a descriptor handed to the operation may be closed by it: once
+                        let pos = self.given.borrow().iter().position(|g| *g == fd);
+                        if let Some(pos) = pos {
+                            self.given.borrow_mut().remove(pos);
+                            self.given_closed.borrow_mut().push(fd);
+                        } else if self.given_closed.borrow().contains(&fd) {
+                            drop(fds);
+                            self.issues.borrow_mut().push(FdIssue {
+                                kind: "double-close",
+                                detail: format!("descriptor {fd} (handed to the operation by the caller) is closed a second time"),
+                                origin: format!("given fd{fd}"),
+                            });
+                        } else {
                             drop(fds);
                             self.issues.borrow_mut().push(FdIssue {
                                 kind: "close-unowned",
